@@ -91,7 +91,8 @@ def execute(sc):
     faults = None
     if sc.get('unlink_fault'):
         h0 = run_history(copy.deepcopy(sc), want_idempotence=True)
-        un = [n for (n, kind, rel, outcome) in h0['seams'][0].events if kind == 'unlink']
+        # (only unlinks issued by the rounds' own updates, not by the engine's second, idempotence-probing update)
+        un = [n for (n, kind, rel, outcome) in h0['seams'][0].events if kind == 'unlink' and any(a_ < n <= b_ for a_, b_ in h0.get('update_ops', []))]
         if un:
             faults = [{'at': un[sc['unlink_fault']['pick'] % len(un)], 'errno': sc['unlink_fault']['errno']}]
     h = run_history(sc, want_idempotence=True, faults=faults)
